@@ -7,6 +7,12 @@ from .engine import State, Exec, PyRaise
 from .types_eval import eval_type
 
 
+def NS_tagged(tag_, role):
+    t = TOpaque(tag_)
+    t.role = role
+    return t
+
+
 def make_param(ex, st, t, name, root=None):
     """symbolic parameter of sort t; containers are allocated as caller-owned ('param') objects"""
     facts = []
@@ -27,6 +33,21 @@ def make_param(ex, st, t, name, root=None):
             raise Unsupported('sort %s must be case-split by the contract (cases=...)' % t.tag)
         if t.tag == 'str':
             return 'str'
+        if t.tag == 'callables':
+            # list of user callables (one per variable): element k is an opaque callable with role t.role and index k
+            n = z3.Int(fresh_name(name + '_n'))
+            st.assume(n >= 0)
+            lst = SList(n, lambda k, role=t.role: SFun('uf', role=role, index=k), TOpaque('callable'))
+            if root is not None:
+                return lst
+            ref = st.alloc(lst, 'param')
+            ex.frame_roots[ref.oid] = name
+            return ref
+        if t.tag == 'dictcall':
+            dom = fresh_value(TSet(INT), name + '_keys')
+            ref = st.alloc(SDict(dom, lambda k, role=t.role: SFun('uf', role=role, index=k), TOpaque('callable')), 'param')
+            ex.frame_roots[ref.oid] = name
+            return ref
         if t.tag == 'dict_iv':
             dom = fresh_value(TSet(INT), name + '_keys')
             kf = z3.Function(fresh_name(name + '_kind'), z3.IntSort(), z3.IntSort())
@@ -81,10 +102,14 @@ def verify_function(prog, db, q, contract, case=None):
         fr.degraded = 'function %s no longer exists' % q
         return fr
     ex.cur = fi
+    if 'assign_shape' in case:
+        st_ghost_assign = case['assign_shape']
     ex.case_tag = ('@' + ','.join('%s=%s' % (k, case[k]) for k in sorted(case))) if case else ''
     ex.cur_node_stack = [fi.node]
     ex.cur_qual_stack = [q]
     st = State()
+    if 'assign_shape' in case:
+        st.ghost['assign_shape'] = case['assign_shape']
     try:
         env = {}
         cparams = dict(contract.params)
@@ -103,6 +128,8 @@ def verify_function(prog, db, q, contract, case=None):
                     env[p] = (fresh_scalar(INT, p + '_a'), fresh_scalar(INT, p + '_b'), fresh_scalar(INT, p + '_c'))
                 elif cv == 'dict':
                     env[p] = make_param(ex, st, eval_type(ast.parse('DictIv', mode='eval').body), p)
+                elif isinstance(cv, str) and cv.startswith('dictcall:'):
+                    env[p] = make_param(ex, st, NS_tagged('dictcall', cv.split(':', 1)[1]), p)
                 elif cv == 'rpair':
                     env[p] = (fresh_scalar(REAL, p + '_lo'), fresh_scalar(REAL, p + '_hi'))
                 elif cv == 'arr1':
@@ -159,6 +186,16 @@ def verify_function(prog, db, q, contract, case=None):
                         cur.heap.update({k2: v2 for k2, v2 in h.heap.items() if k2 not in cur.heap})
                         cur.assume(f)
                 ex.before_hooks.setdefault(at.split(':', 1)[1], []).append(hook)
+        for cl in contract.of('check'):
+            # check(<expr>, at='before:<callee>'): an assertion (obligation) at the program point just before that call
+            at = ast.literal_eval(cl.kw['at'])
+            def chook(cur, cl=cl):
+                for a in cl.args:
+                    h = State(dict(cur.env), cur.heap, cur.ver, cur.pc, cur.ghost)
+                    g = ex.truth(ex.evs(a, h), h)
+                    ex.oblige(cur, 'check', g, a, text='at %s: %s' % (ast.literal_eval(cl.kw['at']), ast.unparse(a)[:120]))
+                    cur.assume(g)
+            ex.before_hooks.setdefault(at.split(':', 1)[1], []).append(chook)
         o = ex.oblige(st, 'pre-sat', False, fi.node, text='precondition is satisfiable', expect='sat')
         outs = ex.exec_block(fi.node.body, st)
         rt = eval_type(contract.returns) if contract.returns is not None else None
